@@ -93,11 +93,6 @@ class Report:
             got = len(by_rule.get(rule, []))
             if got < n:
                 vac.append(f'rule {rule}: {got} obligations, floor {n}')
-        if vac:
-            for v in vac:
-                print(f'ANALYSIS-ERROR property={self.prop} vacuity: {v}')
-            self._write_evidence(index, violations=0, known_hits=[], broken=vac)
-            return 2
         viols = []
         known_hits = []
         seen = set()
@@ -123,6 +118,13 @@ class Report:
                       + (f' (floor {self.floors[rule]})' if rule in self.floors else ''))
             for m in self.infos:
                 print(f'  INFO {m}')
+        if vac and not viols:
+            # a rule that matched fewer sites than were confirmed by hand decides nothing: analysis broken,
+            # never a silent pass (a violation found elsewhere is still reported as such)
+            for v in vac:
+                print(f'ANALYSIS-ERROR property={self.prop} vacuity: {v}')
+            self._write_evidence(index, violations=0, known_hits=[], broken=vac)
+            return 2
         for o, kf in known_hits:
             print(f'KNOWN-FINDING: property={self.prop} {o.rule} {o.site} [{o.construct[:100]}]: '
                   f'{kf.get("what", "")}')
